@@ -70,7 +70,7 @@ def _run_batch(args) -> dict:
 	for i, case in enumerate(cases):
 		for j, (arg, out) in enumerate(zip(argv, case['outcomes'])):
 			if not out['undef']:
-				lines.append(f'\ttry {{ auto v = f{first + i}({arg[0]}, {arg[1]}); std::cout << "{first + i} {j} " << verif::show(v) << "\\n"; }} catch (const std::exception& ex) {{ std::cout << "{first + i} {j} raise\\n"; }}')
+				lines.append(f'\tstd::cout << "start {first + i} {j}\\n" << std::flush; try {{ auto v = f{first + i}({arg[0]}, {arg[1]}); std::cout << "{first + i} {j} " << verif::show(v) << "\\n"; }} catch (const std::exception& ex) {{ std::cout << "{first + i} {j} raise\\n"; }}')
 	res = compile_and_run(os.path.join(root, f'c{first}'), text, '\n'.join(lines))
 	if not res['compiled']:
 		# attribute every compiler error to the function whose emitted text contains the line, drop those, compile the rest
@@ -95,10 +95,20 @@ def _run_batch(args) -> dict:
 		rest = [c for i, c in enumerate(cases) if first + i not in bad]
 		sub = _run_batch((rest, first, argv)) if rest else {'failures': [], 'machinery': [], 'programs': 0, 'results': 0}
 		return _merge({'failures': failures, 'machinery': [], 'programs': len(failures), 'results': 0}, sub)
+	if res.get('timeout'):
+		# the program did not return: the last started call is the one that hangs; report it and run the rest again
+		started = [ln.split() for ln in res['stdout'].splitlines() if ln.startswith('start ')]
+		if not started:
+			return {'failures': [{'clause': 'Terminates', 'detail': 'the compiled program does not return and prints nothing', 'text': cases[0]['text'], 'kind': kind(cases[0])}], 'machinery': [], 'programs': len(cases), 'results': 0}
+		idx, j = int(started[-1][1]) - first, int(started[-1][2])
+		hang = cases[idx]
+		rest = [c for k, c in enumerate(cases) if k != idx]
+		sub = _run_batch((rest, first, argv)) if rest else {'failures': [], 'machinery': [], 'programs': 0, 'results': 0}
+		return _merge({'failures': [{'clause': 'Terminates', 'detail': f'f({argv[j][0]}, {argv[j][1]}): the compiled C++ does not return within 20 s, Python returns {value_of(hang["outcomes"][j])}', 'text': hang['text'], 'kind': kind(hang)}], 'machinery': [], 'programs': 1, 'results': 0}, sub)
 	got = {}
 	for ln in res['stdout'].splitlines():
 		parts = ln.split(' ', 2)
-		if len(parts) == 3:
+		if len(parts) == 3 and parts[0] != 'start':
 			got[(int(parts[0]), int(parts[1]))] = parts[2]
 	results = 0
 	for i, case in enumerate(cases):
